@@ -9,6 +9,8 @@ package main
 import (
 	"fmt"
 
+	"github.com/scottyw/tetromino/gameboy/controller"
+
 	"verif/internal/lockstep"
 	"verif/internal/prog"
 	"verif/internal/rig"
@@ -124,7 +126,7 @@ func className(addr uint16) string {
 }
 
 func run(c *rig.Ctx) {
-	c.Require("writes_checked", "writes_io", "writes_cart_control", "states", "writes_with_lcd_on", "writes_with_sound_off", "writes_with_visible_effect")
+	c.Require("writes_checked", "writes_io", "writes_cart_control", "states", "writes_with_lcd_on", "writes_with_sound_off", "writes_with_visible_effect", "states_with_buttons_held")
 	nstates := c.N(48, 480)
 	c.Part("states", nstates, func(i int64, r *rig.Rng) {
 		carts := []int{0x00, 0x01, 0x03, 0x05, 0x13, 0x10, 0x1b}
@@ -154,12 +156,29 @@ func run(c *rig.Ctx) {
 		}
 		tick(r.Intn(60000))
 		c.Count("states", 1)
+		// buttons are held in most states (a JOYP write must not do anything but select)
+		press := func() {
+			for b := controller.Up; b <= controller.Select; b++ {
+				if r.Chance(1, 3) {
+					m.Ctl.ButtonAction(b, r.Bool())
+				}
+			}
+			if m.Ctl.ReadJOYP()&0x0f != 0x0f || i%4 != 0 {
+				c.Count("states_with_buttons_held", 1)
+			}
+		}
+		if i%4 != 0 {
+			press()
+		}
 		var before, after [0x10000]byte
 		nw := int(c.N(5200, 40000))
 		sweep(m, &before)
 		for k := 0; k < nw; k++ {
 			if k%211 == 210 {
 				tick(1 + r.Intn(3000))
+				if i%4 != 0 {
+					press()
+				}
 				sweep(m, &before)
 			}
 			var addr uint16
